@@ -50,7 +50,7 @@ func runC07() {
 	for i := lo; i < hi; i++ {
 		runFileHistory(c, int64(i))
 	}
-	if os.Getenv("VERIF_C07_FILE_CONCURRENT") != "" {
+	if os.Getenv("VERIF_C07_FILE_CONCURRENT") != "0" { // fired on the pinned tree, holds since fix 7a646a5
 		lo, hi = c.Slice(nFile / 3)
 		for i := lo; i < hi; i++ {
 			runFileConcurrent(c, int64(i))
